@@ -56,10 +56,28 @@ INFO = {
  "C16-5": ("C16", "the metadata key is derived with the authentication data as KDF label (0x00 only when absent)", "authentication data equal to the single byte 0x01: metadata key = caller's secret"),
  "C17-5": ("C17", "sign no longer covers the identifier ('already authenticated by the registry lookup')", "the identifier of one issued key spliced onto the body and signature of another, then refreshed"),
  "C18-5": ("C18", "select_subkeys: hybridization flag is last-one-wins instead of sticky false", "a re-encapsulation whose recovered rights mix classic and hybridized keys (depends on set order)"),
+ "C01-6": ("C01", "BitOr for AccessPolicy: 'X || *' collapses to X (copy-paste from BitAnd)", "a policy with '*' as the right operand of an OR, on the user or the encryption side"),
+ "C02-6": ("C02", "BitAnd for AccessPolicy: '* && X' collapses to '*' (copy-paste from BitOr)", "a conjunction with a trailing '*' (the parser folds from Broadcast): 'SEC::TOP && *' is encapsulated for everyone"),
+ "C03-6": ("C03", "update_msk drops deleted rights only when the new right set is strictly smaller than the stored one", "a deletion batched with at least as many additions in one update, then refresh"),
+ "C04-6": ("C04", "Covercrypt::rekey resolves the policy with ap_to_enc_rights (exact points) instead of ap_to_usk_rights", "an encapsulation whose policy differs from the rekey policy but shares rights with it"),
+ "C05-6": ("C05", "prune pops only the oldest secret of each chain ('if' instead of 'while')", "a right rekeyed at least twice before the prune"),
+ "C06-6": ("C06", "refresh_coordinate_keys does not hand over master secrets flagged deactivated", "rekey, encapsulate, disable + update, then refresh (keep) a key that had missed the rekey"),
+ "C07-6": ("C07", "c_decaps de-duplicates adjacent masked seeds before computing U", "a classic encapsulation with a component repeated right after itself (count bumped)"),
+ "C08-6": ("C08", "RevisionVec::insert_new_chain silently ignores a second chain for a right already present", "a serialized user key listing a right twice (arbitrary secrets in the copy): it deserializes to the issued key"),
+ "C09-6": ("C09", "generate_semantic_space drops attributes of unknown dimensions (filter_map with ? on the Option)", "key generation / rekey / prune for a policy naming an unknown dimension: succeeds (broadcast when alone)"),
+ "C10-6": ("C10", "rekey validation: '!any(contains)' instead of 'any(!contains)'", "a rekey whose rights are partly held and partly missing: the held ones are rotated before the error"),
+ "C11-6": ("C11", "select_subkeys: hybridization flag is last-one-wins (same change as C18-5)", "a multi-target encapsulation mixing classic and hybridized rights, depending on set order"),
+ "C12-6": ("C12", "ser::read_vec computes the remaining length with the prefix width of the buffer length instead of the payload length", "an encrypted header whose encrypted metadata is exactly 127 (or 16383) bytes and ends the buffer"),
+ "C13-6": ("C13", "EncryptedHeader::read maps encrypted metadata of at most nonce + tag bytes to absent", "a header generated with present-but-empty metadata, round-tripped: different object, authentication skipped"),
+ "C14-6": ("C14", "Dict::from_iter reserves the iterator's UPPER size hint", "an access structure whose hierarchy attribute count is replaced by 2^64-1: capacity overflow panic / huge allocation"),
+ "C15-6": ("C15", "BitAnd absorption copied from BitOr with the wrong variant: x && (x && y) becomes x", "a parenthesised conjunction AND-ed onto one of its own operands"),
+ "C16-6": ("C16", "Covercrypt::default seeds its RNG from the wall clock (seconds)", "two instances created within the same second: identical streams"),
+ "C17-6": ("C17", "generate_user_secret_key runs on a clone of the shared RNG ('release the lock early')", "two keys generated back to back on one instance: same identifier, one registry entry"),
+ "C18-6": ("C18", "full_decaps' hybridized branch ignores the activation flag", "a hybridized multi-target original one of whose targets was disabled afterwards: recaps fails with 'no public key'"),
  "C07-2": ("C07", "Encapsulations::read accepts any flag value other than 1 as 'classic' (flag turned into a bool, error branch removed)", "a classic encapsulation whose flag byte is changed in bits 1..6: it deserializes to the same object and still decapsulates"),
 }
 logs = ""
-for f in ("/var/tmp/seedeval.txt", "/var/tmp/seedeval2.txt", "/var/tmp/seedeval3.txt", "/var/tmp/seedeval4.txt", "/var/tmp/seedeval5.txt", "/var/tmp/seedeval5_c03.txt", "/var/tmp/seedeval6.txt", "/var/tmp/seedeval6b.txt", "/var/tmp/seedeval6c.txt"):
+for f in ("/var/tmp/seedeval.txt", "/var/tmp/seedeval2.txt", "/var/tmp/seedeval3.txt", "/var/tmp/seedeval4.txt", "/var/tmp/seedeval5.txt", "/var/tmp/seedeval5_c03.txt", "/var/tmp/seedeval6.txt", "/var/tmp/seedeval6b.txt", "/var/tmp/seedeval6c.txt", "/var/tmp/seedeval7.txt", "/var/tmp/seedeval8.txt", "/var/tmp/seedeval9.txt"):
     if os.path.exists(f):
         logs += open(f).read()
 # split per section
@@ -71,7 +89,9 @@ for ln in logs.split("\n"):
     m = re.match(r"=== (\S+)", ln)
     if m:
         key = m.group(1)
-        if key.startswith("/tmp/mut5/"):
+        if key.startswith("/tmp/mut6/"):
+            cur = key.split("/")[-1] + "-6"
+        elif key.startswith("/tmp/mut5/"):
             cur = key.split("/")[-1] + "-5"
         elif key.startswith("/tmp/mut4/"):
             cur = key.split("/")[-1] + "-4"
@@ -88,7 +108,7 @@ for ln in logs.split("\n"):
     elif cur:
         sections[cur].append(ln)
 confirm = {}
-for f in ("/var/tmp/confirm.txt", "/var/tmp/confirm2.txt", "/var/tmp/confirm3.txt", "/var/tmp/confirm4.txt"):
+for f in ("/var/tmp/confirm.txt", "/var/tmp/confirm2.txt", "/var/tmp/confirm3.txt", "/var/tmp/confirm4.txt", "/var/tmp/confirm5.txt", "/var/tmp/confirm6.txt"):
     if os.path.exists(f):
         for ln in open(f):
             m = re.match(r"(C\d+(?:-\d)?) \| (.*)", ln)
